@@ -12,7 +12,7 @@ import random
 from simkit import gen, model
 from simkit.harness import HarnessError, World
 
-TIERS = {"C14": {"quick": 1000, "thorough": 15000}}
+TIERS = {"C14": {"quick": 1000, "thorough": 8000}}
 LEVEL = {"C14": "exploration"}
 RULE = {
     "C14": "scenario = content (sizes concentrated around 0, 511-513 bytes and the 1 MiB read "
